@@ -48,3 +48,11 @@ Theorem C12_dir_crash : forall s data c e s' ch,
       dread (apply_some (s_dev s) l keep) (s_dsize s) (cluster_addr s y) (bpc s) = rd s (cluster_addr s y) (bpc s).
 Proof. exact dir_crash. Qed.
 Print Assumptions C12_dir_crash.
+
+(** the reader's side of a torn directory rewrite: when entries were shifted (an entry further up was removed) and the
+    device stopped between two sectors, a long-name slot can appear twice, verbatim; the reader ignores the copy, so the set
+    still completes and the sub-directory or file behind it stays reachable by its long name (repair D35) *)
+Theorem C12_repeated_slot_ignored : forall f s rest pend acc, lslot_ok s -> In s pend ->
+  scan_slots (S f) (ser_lfnslot s ++ rest) pend acc = scan_slots f rest pend acc.
+Proof. exact scan_repeated_slot. Qed.
+Print Assumptions C12_repeated_slot_ignored.
